@@ -630,7 +630,7 @@ EB_API EbErrorType svt_av1_dec_get_picture(EbComponentType *   svt_dec_component
     (void)frame_info;
 
     EbErrorType return_error = EB_ErrorNone;
-    if (svt_dec_component == NULL)
+    if (svt_dec_component == NULL || p_buffer == NULL)
         return EB_ErrorBadParameter;
 
     EbDecHandle *dec_handle_ptr = (EbDecHandle *)svt_dec_component->p_component_private;
